@@ -112,6 +112,123 @@ let run_orswot (toks : string list) : string =
     Buffer.contents out
   | _ -> "?bad-case"
 
+(* ---- component: actor (C02 C07) ------------------------------------------ *)
+let show_set_dump (s : Model.oset) (probes : string list) : string =
+  "E" ^ show_pairs (Model.entries_list s) ^ "D" ^ show_pairs (Model.dead_list s) ^ "B["
+  ^ String.concat "" (List.map (fun t -> show_bool (Model.before_set s (n t))) probes)
+  ^ "]"
+
+let show_store_dump st : string =
+  let rows = Model.store_list st in
+  let cmpk (a, _) (b, _) =
+    let ka = h a and kb = h b in
+    compare (String.length ka, ka) (String.length kb, kb)
+  in
+  let rows = List.sort cmpk rows in
+  let m =
+    List.map
+      (fun (k, (t, p)) -> h k ^ "=" ^ h t ^ "." ^ (match p with Some _ -> "0" | None -> "1"))
+      rows
+  in
+  let g =
+    List.filter_map
+      (fun (k, (t, p)) -> match p with Some pl -> Some (h k ^ "=" ^ h t ^ "." ^ h pl) | None -> None)
+      rows
+  in
+  "M[" ^ String.concat "," m ^ "]G[" ^ String.concat "," g ^ "]"
+
+let parse_outcome (o : string) : Model.outcome_s =
+  match o with
+  | "k" -> Model.SOk
+  | "f" -> Model.SFail
+  | _ ->
+    Model.SPartial
+      (List.init (String.length o - 1) (fun i -> o.[i + 1] = '1'))
+
+let parse_request (tok : string) : (Model.request * Model.outcome_s) option =
+  let nat_ s = nat_of_int (int_of_string s) in
+  let items s = List.filter (fun x -> x <> "") (String.split_on_char ',' s) in
+  match String.split_on_char ':' tok with
+  | [ "s"; src; k; t; p; o ] ->
+    Some (Model.RSet (nat_ src, { Model.d_id = n k; d_ts = n t; d_data = n p }), parse_outcome o)
+  | [ "d"; src; k; t; o ] ->
+    Some (Model.RDel (nat_ src, { Model.m_id = n k; m_ts = n t }), parse_outcome o)
+  | [ "S"; src; o; its ] ->
+    let ds =
+      List.map
+        (fun it ->
+          match String.split_on_char '.' it with
+          | [ k; t; p ] -> { Model.d_id = n k; d_ts = n t; d_data = n p }
+          | _ -> failwith "bad item")
+        (items its)
+    in
+    Some (Model.RMultiSet (nat_ src, ds), parse_outcome o)
+  | [ "D"; src; o; its ] ->
+    let ms =
+      List.map
+        (fun it ->
+          match String.split_on_char '.' it with
+          | [ k; t ] -> { Model.m_id = n k; m_ts = n t }
+          | _ -> failwith "bad item")
+        (items its)
+    in
+    Some (Model.RMultiDel (nat_ src, ms), parse_outcome o)
+  | [ "P"; o ] -> Some (Model.RPurge, parse_outcome o)
+  | _ -> None
+
+(* legacy flags: (legacy acceptance rule, no de-duplication) *)
+let run_actor_gen (legacy : bool) (dedup : bool) (toks : string list) : string =
+  match toks with
+  | "act" :: pr :: reqs ->
+    let probes =
+      let p = String.sub pr 7 (String.length pr - 7) in
+      List.filter (fun x -> x <> "") (String.split_on_char ',' p)
+    in
+    let two = nat_of_int 2 in
+    let state = ref (Model.empty_set two, Model.gmap_empty_store) in
+    let outs =
+      List.map
+        (fun tok ->
+          let reply =
+            if tok = "R" then begin
+              let _, st = !state in
+              state := (Model.rebuild two st, st);
+              "restart"
+            end
+            else if String.length tok > 0 && tok.[0] = 'C' then begin
+              (* the node dies after the storage write of this request: the store is as after
+                 the request, the set is rebuilt from it *)
+              let inner = String.sub tok 1 (String.length tok - 1) in
+              match parse_request inner with
+              | Some (r, _) ->
+                let s0, st0 = !state in
+                let applies =
+                  match r with
+                  | Model.RSet (_, d) -> Model.will_apply s0 d.Model.d_id d.Model.d_ts
+                  | Model.RDel (_, m) -> Model.will_apply s0 m.Model.m_id m.Model.m_ts
+                  | _ -> true
+                in
+                let (_, st1), _ = Model.actor_step legacy dedup (s0, st0) r Model.SOk in
+                state := (Model.rebuild two st1, st1);
+                (* a single request that does not apply never reaches storage: it returns *)
+                if applies then "crash-hung" else "crash-ok"
+              | None -> "?tok"
+            end
+            else
+              match parse_request tok with
+              | Some (r, o) ->
+                let x', rep = Model.actor_step legacy dedup !state r o in
+                state := x';
+                (match rep with Model.ROk -> "ok" | Model.RErr -> "err")
+              | None -> "?tok"
+          in
+          let s, st = !state in
+          reply ^ " " ^ show_set_dump s probes ^ " " ^ show_store_dump st)
+        reqs
+    in
+    String.concat " | " outs
+  | _ -> "?bad-case"
+
 let () =
   let comp = if Array.length Sys.argv > 1 then Sys.argv.(1) else "" in
   let f =
@@ -119,6 +236,8 @@ let () =
     | "ts" -> run_ts
     | "hlc" -> run_hlc
     | "orswot" -> run_orswot
+    | "actor" -> run_actor_gen false true
+    | "actor-legacy-d2" -> run_actor_gen false false
     | _ -> prerr_endline ("unknown component " ^ comp); exit 2
   in
   let out = Buffer.create 65536 in
